@@ -337,6 +337,25 @@ def directed():
             yield {"kind": "reduce2", "dtype": "int64", "vals": vals, "name": name, "via": "concat"}
 
 
+def sweep(tier):
+    """every pair of run-boundary sets of two arrays of length 1..4 (thorough: ..6) x non-commutative / merging ufuncs:
+    all relative alignments of the boundaries, exhaustively"""
+    import itertools
+    maxL = 4 if tier == "quick" else 6
+    ufs = ["subtract", "maximum", "less", "bitwise_xor"] if tier == "quick" else ["subtract", "maximum", "less", "bitwise_xor", "floor_divide", "equal", "add"]
+    for L in range(1, maxL + 1):
+        inner = list(range(1, L))
+        subsets = [list(c) for k in range(len(inner) + 1) for c in itertools.combinations(inner, k)]
+        for A in subsets:
+            for B in subsets:
+                va = [3 * k + 1 + (k % 2) * 5 for k in range(len(A) + 1)]
+                vb = [7 - 2 * k + (k % 3) * 4 for k in range(len(B) + 1)]
+                v = from_runs([0] + A, va, L, "int64").tolist()
+                w = from_runs([0] + B, vb, L, "int64").tolist()
+                for uf in ufs:
+                    yield {"kind": "rl", "dtype": "int64", "vals": v, "dtype2": "int64", "vals2": w, "uf": uf, "align": "independent", "vclass": "small"}
+
+
 def random_case(rng, tier):
     if rng.random() < 0.06:
         v, _ = rl.gen_runs(rng, "int64", "small", 10)
